@@ -1,0 +1,27 @@
+//go:build verif
+
+// Copyright (C) 2023  Shanhu Tech Inc.
+//
+// This program is free software: you can redistribute it and/or modify it
+// under the terms of the GNU Affero General Public License as published by the
+// Free Software Foundation, either version 3 of the License, or (at your
+// option) any later version.
+//
+// This program is distributed in the hope that it will be useful, but WITHOUT
+// ANY WARRANTY; without even the implied warranty of MERCHANTABILITY or
+// FITNESS FOR A PARTICULAR PURPOSE.  See the GNU Affero General Public License
+// for more details.
+//
+// You should have received a copy of the GNU Affero General Public License
+// along with this program.  If not, see <https://www.gnu.org/licenses/>.
+
+package dock
+
+import (
+	"io"
+)
+
+// VerifWriteTarToDir exposes writeTarToDir to the verification harness.
+func VerifWriteTarToDir(r io.Reader, destDir string) error {
+	return writeTarToDir(r, destDir)
+}
